@@ -7,6 +7,7 @@ What is a parameter (trusted base): `rw` rune width; `payload` = the bytes encod
 main+combining runes (Model/Encode instantiates it; for UTF-8 it is the UTF-8 encoding).
 -/
 import Tcell.Model.Cell
+import Tcell.Model.LockRegion
 namespace Tcell
 
 def attrInvalid : Nat := 2^31
@@ -76,8 +77,6 @@ structure Scr where
   cursorShaped : Bool := false   -- a non-default cursor shape has been sent
   cursorTinted : Bool := false   -- a cursor colour has been sent
 
-/-- repaired tree only: `CellBuffer.locked` (added to cell.go by fixes/C13-wide-left-of-locked.patch): in range and locked -/
-def Buf.locked (b : Buf) (x y : Int) : Bool := if b.inRange x y then (b.cells x y).lock else false
 
 namespace Scr
 
